@@ -202,7 +202,7 @@ PROPERTIES = {
         "assumptions": [
             "'divided by the bin width' is C++ integer division of the channel value (truncation towards zero for negative channels)",
             "masks have exactly the view's dimensions; limit boxes are representable in the histogram's key types",
-            "limits are enforced (setlimits=true) only together with bin width 1: the statement does not say whether limits apply to the channel value or to the key, and the two readings coincide only there",
+            "limits are bin keys (the parameters have the histogram's key_type and are documented as 'limit on the values in histogram'; fill() compares them with channel / bin width), for every bin width",
             "dense pre-fill is exercised for 1-D keys inside an explicit box of at most 301 keys (the library creates one bin per key; for 16/32-bit key types the defaulted box is the whole type range); empty pre-filled bins are not bins 'that were counted' and may exist on either side",
             "sub_histogram over a key range is exercised with one selected axis (the library compares multi-axis ranges lexicographically, which the statement does not settle)",
             "normalize is exercised on histograms with a positive total; the std fillers are compared on gray views and through the library's own gray conversion for rgb8",
